@@ -1,6 +1,6 @@
 #!/usr/bin/env python3
 """Binding demonstration (HOWTO rule 10a) for C17 / C20: corrupt one recorded field of an ACCEPTED trace and show
-that the trace monitor reports it.   usage: lib/corrupt_trace_demo.py C17|C20 <accepted trace chunk .ndjson>"""
+that the trace monitor reports it.   usage: lib/corrupt_trace_demo.py C17|C17client|C20 <accepted trace chunk .ndjson>"""
 import copy
 import json
 import os
@@ -42,6 +42,27 @@ def c17(lines):
     yield "Split.pub += unknown element", t
 
 
+def c17_client(lines):
+    """corruptions of a client-path (Send) line; needs a chunk that holds such executions"""
+    yield "unchanged", lines
+    t = copy.deepcopy(lines)
+    i = first(t, lambda o: o["e"] == "Send" and "subject" in o["o"]["call"])
+    t[i]["o"]["wire"].append("subject")      # the subject element is on the wire next to the payload
+    yield "Send.wire += subject", t
+    t = copy.deepcopy(lines)
+    i = first(t, lambda o: o["e"] == "Send" and "body" in o["o"]["call"])
+    t[i]["o"]["wtok"].append("body")         # only the body's distinctive value is found in the raw stanza
+    yield "Send.wtok += body", t
+    t = copy.deepcopy(lines)
+    i = first(t, lambda o: o["e"] == "Send" and "stanzaId" in o["o"]["wire"])
+    t[i]["o"]["wire"].remove("stanzaId")     # a public element of the message did not make it to the wire
+    yield "Send.wire -= stanzaId", t
+    t = copy.deepcopy(lines)
+    i = first(t, lambda o: o["e"] == "SendPlain" and "body" in o["o"]["wire"])
+    t[i]["o"]["wire"].append("subject")      # the control is never judged
+    yield "SendPlain.wire += subject (control, not judged)", t
+
+
 def c20(lines):
     yield "unchanged", lines
     t = copy.deepcopy(lines)
@@ -66,7 +87,8 @@ def c20(lines):
 def main():
     prop, path = sys.argv[1], sys.argv[2]
     lines = vf.read_ndjson(path)
-    spec = {"C17": ("SceTrace.tla", "SceTrace.cfg", c17), "C20": ("CapsTrace.tla", "CapsTrace.cfg", c20)}[prop]
+    spec = {"C17": ("SceTrace.tla", "SceTrace.cfg", c17), "C17client": ("SceTrace.tla", "SceTrace.cfg", c17_client),
+            "C20": ("CapsTrace.tla", "CapsTrace.cfg", c20)}[prop]
     os.makedirs(os.path.join(vf.OUT, "demo"), exist_ok=True)
     for name, t in spec[2](lines):
         p = os.path.join(vf.OUT, "demo", f"{prop}-corrupt.ndjson")
